@@ -34,6 +34,20 @@ def deliver(cls: str, rows: list[dict], plan: dict):
         return tl
     if how == "reverse_sort":
         return build_list(cls, rows).sorted(reverse=True)
+    if how == "sort_then_reverse":
+        # unsorted construction, an ascending sort, then the reverse sort
+        return build_list(cls, prow).sorted().sorted(reverse=True)
+    if how == "concat_sorted_parts":
+        # concatenation of parts each of which was sorted on its own (the whole is not in time order)
+        cuts = sorted(set(c for c in plan.get("cuts", []) if 0 < c < len(prow)))
+        parts, last = [], 0
+        for c in cuts + [len(prow)]:
+            parts.append(prow[last:c])
+            last = c
+        tl = build_list(cls, parts[-1]).sorted()
+        for p in parts[:-1]:
+            tl = tl.append(build_list(cls, p).sorted())
+        return tl
     if how == "concat":
         cuts = sorted(set(c for c in plan.get("cuts", []) if 0 < c < len(prow)))
         parts, last = [], 0
